@@ -257,6 +257,15 @@ def type_closure(T, t0):
     return seen
 
 
+# (visitor module, override, target not reached below it) -> why that is intended.  R-C02-foreignscope *demands* these two.
+FOREIGN_SCOPE_CUTOFF = {
+    ("rule_use_declared_symbolic_var", "visit_program_connection_source", "visit_named_variable"):
+        "the destination of `x := 5` in a program configuration is a variable of the program, not of the configuration whose scope the rule is in (R-C02-foreignscope)",
+    ("rule_use_declared_symbolic_var", "visit_program_connection_sink", "visit_named_variable"):
+        "the source of `y => g` in a program configuration is a variable of the program, not of the configuration whose scope the rule is in (R-C02-foreignscope)",
+}
+
+
 def rule_reach(ctx, rep):
     r = rep.rule("R-C02-reach", "a rule is applied wherever the construct it checks can occur: every overridden visit method is reachable from "
                                 "Library under the visitor's effective traversal; a non-recursing override cuts off no other target of the same "
@@ -320,6 +329,12 @@ def rule_reach(ctx, rep):
                     by_hand.add(m2)
                     r.ok("%s|handles %s by hand" % (inst, m2), where, "does not recurse; reads %s itself (the only place(s) of a %s below %s)" % (", ".join(via_fields), X.split("::")[-1], ty.split("::")[-1]))
             miss -= by_hand
+            # a cut-off that is the point of the override: the nodes below belong to another scope than the one this visitor is in
+            for m2 in sorted(miss):
+                why = FOREIGN_SCOPE_CUTOFF.get((vname.split("::")[0], m, m2))
+                if why:
+                    r.justified("%s|cuts off %s" % (inst, m2), why, where)
+                    miss.discard(m2)
             if miss:
                 r.finding(inst + "|cut-off:" + ",".join(sorted(miss)), where,
                           "override does not continue the recursion, so occurrences of %s below %s are never visited" % (sorted(miss), ty.split("::")[-1]))
